@@ -10,12 +10,13 @@ GROUPS = {  # name -> (order, cell family used for a conforming cell)
     "orthorhombic": 4, "monoclinic_a": 2, "monoclinic_b": 2, "monoclinic_c": 2, "triclinic": 1}
 
 THOROUGH_SCALE = 8      # multiplies every generated-case budget of the thorough tier
+WARMUP = ["ImageD11.sinograms.point_by_point"]
 RULE = ("exhaustive part: for each of the ten named groups all elements and all ordered products (closure, identity, "
         "inverses, det=+1, integer entries, order, metric preservation for conforming cells with generated free "
         "parameters) and all 720 orders of calling 6 group constructors + all pairs of the ten (cache purity); "
         "generated part: group x conforming cell x uniform rotation x EVERY group element applied beforehand -> "
         "find_uniq_u invariance, orbit membership, idempotence, maximal trace, unchanged score on exact lattice "
-        "g-vectors; find_uniq_hkls on integer hkl |h|<400 likewise; refinegrains.makeuniq on objects in three states (orientations read; grains generated; grains moved per scan as a refinement leaves them): every stored orientation must become the canonical member of its own orbit; grid_index_parallel.uniq_grain_list: each grain presented in every symmetry-equivalent setting (slightly perturbed) must be recognised as one grain; non-trivial = group order >= 2 and a generic "
+        "g-vectors; find_uniq_hkls on integer hkl |h|<400 likewise; refinegrains.makeuniq on objects in three states (orientations read; grains generated; grains moved per scan as a refinement leaves them): every stored orientation must become the canonical member of its own orbit; point_by_point.idxpoint on simulated peaks of one voxel (harness ray tracing): every orientation returned is the trace-maximal member of its orbit; grid_index_parallel.uniq_grain_list: each grain presented in every symmetry-equivalent setting (slightly perturbed) must be recognised as one grain; non-trivial = group order >= 2 and a generic "
         "(non-special) rotation; trace ties are counted and only required to return a maximiser")
 ASSUMPTIONS = ["conforming cells are the standard settings used by refinegrains (hexagonal axes gamma=120 for "
                "hexagonal/trigonal, a=b=c alpha=beta=gamma for rhombohedralP, unique axis a/b/c for monoclinic_a/b/c)",
@@ -413,6 +414,95 @@ def check_makeuniq(case, rec=None):
     return fails
 
 
+# ----------------------------------------------------------------- point_by_point.idxpoint returns reduced orientations
+
+IDX_GROUPS = ["cubic", "hexagonal", "tetragonal", "orthorhombic", "trigonal"]
+
+
+@st.composite
+def idxcases(draw):
+    name = draw(st.sampled_from(IDX_GROUPS))
+    p = draw(cellpars())
+    seed = draw(st.integers(0, 2 ** 31 - 1))
+    si = draw(st.integers(-8, 8))
+    sj = draw(st.integers(-8, 8))
+    return dict(group=name, p=p, seed=seed, si=si, sj=sj)
+
+
+def check_idxpoint(case, rec=None):
+    """Simulated scanning-3DXRD peaks of one voxel (the harness's own ray tracing); every orientation returned by
+    the point-by-point indexing worker must be the canonical member of its orbit under the group it was given."""
+    import io, contextlib
+    from vf import oracles as O
+    from ImageD11 import parameters, unitcell, sym_u, indexing
+    from ImageD11.sinograms import point_by_point as pbp, geometry as G
+    name = case["group"]
+    cell = [float(x) for x in conforming_cell(name, case["p"])]
+    k = 3.5 / min(cell[:3])                                   # keep the number of rings moderate
+    cell = [cell[0] * k, cell[1] * k, cell[2] * k] + cell[3:]
+    ops = [np.asarray(o, float) for o in getattr(sym_u, name)().group]
+    rng = np.random.RandomState(case["seed"] % (2 ** 32))
+    par = dict(distance=150000.0, y_center=1024., z_center=1024., y_size=75., z_size=75., tilt_x=0., tilt_y=0.,
+               tilt_z=0., o11=1., o12=0., o21=0., o22=-1., wedge=0., chi=0., t_x=0., t_y=0., t_z=0., omegasign=1.0,
+               wavelength=0.3)
+    ystep = 2.0
+    y0 = rng.uniform(-3, 3)
+    ymin = y0 - 20 * ystep + rng.randint(-3, 4) * ystep
+    si, sj = case["si"], case["sj"]
+    sx, sy = G.step_to_sample(si, sj, ystep)
+    UB = gens.rotation_from_seed(case["seed"]) @ gens.busing_levy_B(cell)
+    uc = unitcell.unitcell(cell, "P")
+    uc.makerings(0.95)
+    hkls = np.array([h for ds in uc.ringds for h in uc.ringhkls[ds]]).T
+
+    def origin(omdeg):
+        om = np.radians(omdeg)
+        return np.array([sx * np.cos(om) - sy * np.sin(om), 0 * om, 0 * om])
+    sim = O.geo_simulate(UB @ hkls, par, origin=origin)
+    ok = sim["ok"]
+    sc, fc, om = sim["sc"][ok], sim["fc"][ok], sim["omega"][ok]
+    m = (sc > 0) & (sc < 2048) & (fc > 0) & (fc < 2048)
+    sc, fc, om = sc[m], fc[m], om[m]
+    n = len(om)
+    if n < 40:
+        if rec is not None:
+            rec.exclude("fewer than 40 simulated peaks on the detector")
+        return []
+    xyz = O.geo_xyz_lab(sc, fc, par)
+    omr = np.radians(om)
+    dtyi = G.dty_to_dtyi(y0 - sx * np.sin(omr) - sy * np.cos(omr), ystep, ymin)
+    _, eta = O.geo_tth_eta(xyz - origin(om))
+    pbp.parglobal = parameters.parameters(**par)
+    pbp.ucglobal = unitcell.unitcell(cell, "P")
+    pbp.symglobal = getattr(sym_u, name)()
+    indexing.loglevel = 10
+    with contextlib.redirect_stdout(io.StringIO()):
+        ok, res = guard(pbp.idxpoint, si, sj, np.ones(n, bool), om, np.sin(omr), np.cos(omr), dtyi, xyz[0].copy(),
+                        xyz[1].copy(), xyz[2].copy(), eta, ystep=ystep, y0=y0, ymin=ymin, minpks=int(0.6 * n),
+                        hkl_tol=0.05, ds_tol=0.01, forgen=[0, 1, 2], hmax=12, uniqcut=0.75)
+    if not ok:
+        return [exc_failure("point_by_point.idxpoint", res)]
+    fails = []
+    truth = np.linalg.inv(UB)
+    found = False
+    for npk, nu, ubi in res:
+        if npk == 0:
+            continue
+        ubi = np.asarray(ubi, float)
+        scale = np.abs(ubi).max()
+        tmax = max(np.trace(o @ ubi) for o in ops)
+        if np.trace(ubi) < tmax - 1e-9 * scale:
+            fails.append(fail("idxpoint", "idxpoint(%s): a returned orientation (%d peaks) is not the canonical member "
+                              "of its symmetry orbit (trace %.9g, orbit maximum %.9g)" % (name, npk, np.trace(ubi), tmax),
+                              group=name))
+            break
+        if min(np.abs(o @ truth - ubi).max() for o in ops) < 1e-6 * scale:
+            found = True
+    if rec is not None:
+        rec.case(case, found and len(ops) >= 2, ["idxpoint:" + name] + ([] if found else ["idxpoint:grain_not_found"]))
+    return fails
+
+
 REG_CELLS = [dict(a=3.0, b=4.0, c=5.0, al=80.0, be=100.0, ga=110.0, tric=[3., 4., 5., 80., 100., 110.])]
 
 
@@ -438,6 +528,8 @@ def run_shard(rec):
     hyp_run(rec, "reduce_ubi", ubicases(), lambda c: check_ubi(c, rec), max_examples=300 if quick else 2500)
     hyp_run(rec, "reduce_hkl", hklcases(), lambda c: check_hkl(c, rec), max_examples=150 if quick else 1500)
     hyp_run(rec, "makeuniq", makeuniqcases(), lambda c: check_makeuniq(c, rec), max_examples=60 if quick else 500)
+    hyp_run(rec, "idxpoint", idxcases(), lambda c: check_idxpoint(c, rec), max_examples=10 if quick else 60,
+            shrink=not quick)
     hyp_run(rec, "uniq_grains", uniqcases(), lambda c: check_uniq(c, rec), max_examples=40 if quick else 400)
 
 
@@ -450,6 +542,8 @@ def replay(sub, case, rec):
         return check_hkl(case, rec)
     if sub == "makeuniq":
         return check_makeuniq(case, rec)
+    if sub == "idxpoint":
+        return check_idxpoint(case, rec)
     if sub == "uniq_grains":
         return check_uniq(case, rec)
     return check_ubi(case, rec)
